@@ -10,7 +10,7 @@ from ..vloop import RES
 
 PID = "C15"
 RULE = (
-    "cases = sequences of queue_send requests with uniquely tagged entries (offer, stop-offer, subscribe-ack, nack) for "
+    "exhaustive: every sequence of bounded length over {queue for multicast / for a peer / with the ids of the previous entry, burst of 17, announcer stop, start} x timing prefixes relative to the collector timer; random: cases = sequences of queue_send requests with uniquely tagged entries (offer, stop-offer, subscribe-ack, nack) for "
     "the multicast group and up to 3 unicast peers, bursts of up to 40 entries, steps timed by delays or relative to the "
     "pending collector timers (-4RES, -RES/4, +RES/4, +4RES, halfway) or inside one iteration; collection timeout from "
     "{0, 0.005, 0.05}; optionally two running instances whose own offers share the queues and an announcer.stop()/start() "
